@@ -159,6 +159,14 @@ class Hist:
         self.objs["s2"] = mk([4.0, 5.0, 6.0], [7.0], 6.0, A)
         self.objs["s4"] = mk([1.5, 2.5], [3.5, 4.5], 9.0, B)
         self.objs["arr"] = I.call(self.AS, [[{"a": [1.0], "b": [2.0, 3.0], "c": 1.0}, {"a": [4.0, 5.0], "b": [6.0], "c": 2.0}]], {"_buffer": A})
+        # a struct holding a struct with two dynamically sized fields (three levels: p -> p.c -> p.c.b): whatever the
+        # parent handle keeps about the nested part must follow a rewrite of that part
+        self.P = ow.lab.struct("P", [("n", F), ("c", self.S)])
+        self.objs["p"] = I.call(self.P, [], {"n": 0.5, "c": {"a": [1.0], "b": [1.0, 2.0, 3.0], "c": 5.0}, "_buffer": A})
+        self.expect["p"] = {".n": 0.5, ".c.a[0]": 1.0, ".c.b[0]": 1.0, ".c.b[1]": 2.0, ".c.b[2]": 3.0, ".c.c": 5.0}
+        self.Q = ow.lab.struct("Q3", [("k", F), ("m", self.P)])
+        self.objs["q"] = I.call(self.Q, [], {"k": 0.25, "m": {"n": 0.5, "c": {"a": [1.0], "b": [1.0, 2.0, 3.0], "c": 5.0}}, "_buffer": A})
+        self.expect["q"] = {".k": 0.25, ".m.n": 0.5, ".m.c.a[0]": 1.0, ".m.c.b[0]": 1.0, ".m.c.b[1]": 2.0, ".m.c.b[2]": 3.0, ".m.c.c": 5.0}
         Str = I.global_lookup("string", "String")
         self.SA = ow.lab.array("ArrStr", [3], (0,), Str)
         LONG = "a" * 23
@@ -228,6 +236,39 @@ class Hist:
         I.call(I.getattr(h, "_update"), [v], {})
         self.expect[dst] = dict(self.expect[src])
         return self.frame(before, [(pos, nb)], f"{dst}._update({src})")
+
+    def op_nested_from_struct(self):
+        """p.c = <S of the same total size with the other split of a / b>, p.c having been read before: the nested part
+        is re-laid out inside p; reading p.c.b through the kept handle p finds it where a fresh view does
+        (seeded C18-h: the parent handle memoised the view of its nested struct)"""
+        I = self.I
+        h = self.objs["p"]
+        na = len([k for k in self.expect["p"] if k.startswith(".c.a[")])
+        nb_ = len([k for k in self.expect["p"] if k.startswith(".c.b[")])
+        I.getattr(I.getattr(h, "c"), "b")  # the nested parts have been looked at
+        new = {"a": [20.0 + i for i in range(nb_)], "b": [30.0 + i for i in range(na)], "c": 7.5}
+        v = I.call(self.S, [], dict(new, _buffer=self.ow.buf("B")))
+        before = self.snapshot()
+        _, pos, nb = self.extent(I.getattr(h, "c"))
+        I.setattr(h, "c", v)
+        self.expect["p"] = {".n": self.expect["p"][".n"], ".c.c": 7.5, **{f".c.a[{i}]": x for i, x in enumerate(new["a"])}, **{f".c.b[{i}]": x for i, x in enumerate(new["b"])}}
+        return self.frame(before, [(pos, nb)], "p.c = <S of the same size, a / b exchanged>")
+
+    def op_nested2_from_struct(self):
+        """q.m = <P of the same total size whose nested S has the other split>, q.m.c.b having been read before: the part
+        TWO levels down is re-laid out; the kept handle q finds q.m.c.b where a fresh view does"""
+        I = self.I
+        h = self.objs["q"]
+        na = len([k for k in self.expect["q"] if k.startswith(".m.c.a[")])
+        nb_ = len([k for k in self.expect["q"] if k.startswith(".m.c.b[")])
+        I.getattr(I.getattr(I.getattr(h, "m"), "c"), "b")
+        new = {"a": [40.0 + i for i in range(nb_)], "b": [50.0 + i for i in range(na)], "c": 8.5}
+        v = I.call(self.P, [], {"n": 1.5, "c": dict(new), "_buffer": self.ow.buf("B")})
+        before = self.snapshot()
+        _, pos, nb = self.extent(I.getattr(h, "m"))
+        I.setattr(h, "m", v)
+        self.expect["q"] = {".k": self.expect["q"][".k"], ".m.n": 1.5, ".m.c.c": 8.5, **{f".m.c.a[{i}]": x for i, x in enumerate(new["a"])}, **{f".m.c.b[{i}]": x for i, x in enumerate(new["b"])}}
+        return self.frame(before, [(pos, nb)], "q.m = <P of the same size, nested a / b exchanged>")
 
     def op_update_dict(self):
         I = self.I
@@ -524,6 +565,8 @@ OPS = {
     "update-from-other-buffer": lambda H: H.op_update_same_size("s1", "s4"),
     "update-s2-from-s4": lambda H: H.op_update_same_size("s2", "s4"),
     "update-dict": lambda H: H.op_update_dict(),
+    "nested-from-struct": lambda H: H.op_nested_from_struct(),
+    "nested2-from-struct": lambda H: H.op_nested2_from_struct(),
     "set-array-field": lambda H: H.op_set_field_array(),
     "set-item": lambda H: H.op_set_item(),
     "copy-then-update-copy": lambda H: H.op_copy_then_update_copy(),
@@ -596,7 +639,7 @@ def _worker(args):
     return [(h,) + run_history(model, h) for h in hists]
 
 
-@rule("SV", ["C06", "C10", "C09", "C11", "C03", "C05"], "structs with dynamic fields and arrays of them: after every history of {update, field/item assignment, copy, refused assignment} every kept handle agrees with a fresh view, reads the expected values, and nothing outside the target changed")
+@rule("SV", ["C06", "C10", "C09", "C11", "C03", "C05", "C18"], "structs with dynamic fields and arrays of them: after every history of {update, field/item assignment, copy, refused assignment} every kept handle agrees with a fresh view, reads the expected values, and nothing outside the target changed")
 def sv(cx):
     m = cx.m
     for _mod in ('struct', 'array', 'string', 'scalar', 'typeutils'):
@@ -607,6 +650,8 @@ def sv(cx):
     hs = [h for n in range(1, maxlen + 1) for h in itertools.product(list(OPS), repeat=n)]
     # C11 (refusals without side effects) and C09 (copies): the quick tier keeps the histories that END in such an operation
     focus = {"C11": ("too-long", "str-item-too-long", "str-update-other-size", "update-dict-refused-late", "array-update-refused-late"), "C09": ("copy-then-update-copy", "copy-to-other-buffer", "str-copy"),
+             # C18: a hybrid object dresses its nested parts from the struct handles: nested assignment of an equal-size value
+             "C18": ("nested-from-struct", "nested2-from-struct"),
              "C05": ("update-dict-refused-late", "array-update-refused-late", "str-update-other-size")}.get(cx.prop)
     if focus and cx.tier != "thorough":
         hs = [h for h in hs if h[-1] in focus]
@@ -632,7 +677,7 @@ def sv(cx):
         if f:
             k, opn, b = f[0]
             by_op[opn].append((len(h), h, k, b))
-    ANCH = {"str-update": "array::Array._update", "str-copy": "array::Array._inspect_args", "str": "array::Array.__setitem__", "update": "struct::Struct._update", "array-update": "array::Array._update", "set-array-field": "array::Array._update", "set-item": "array::Array.__setitem__", "copy": "struct::Struct.__init__", "item": "array::Array.__setitem__", "too-long": "array::Array._update"}
+    ANCH = {"nested2-from-struct": "struct::Field.__set__", "nested-from-struct": "struct::Field.__set__", "str-update": "array::Array._update", "str-copy": "array::Array._inspect_args", "str": "array::Array.__setitem__", "update": "struct::Struct._update", "array-update": "array::Array._update", "set-array-field": "array::Array._update", "set-item": "array::Array.__setitem__", "copy": "struct::Struct.__init__", "item": "array::Array.__setitem__", "too-long": "array::Array._update"}
     for o in OPS:
         anchor = [v for k, v in ANCH.items() if o.startswith(k)][0]
         n_with = sum(1 for h, f, e in results if o in h)
